@@ -3424,6 +3424,24 @@ impl Prop for C07 {
             }
         }
 
+        // every statement of C11's fault catalogue (ill-formed statements of every family the checker knows) as a small program
+        for (k, f) in crate::props::c11::CATALOGUE.iter().enumerate() {
+            if !sh.mine(1_000_000 + k as u64) {
+                continue;
+            }
+            let mut lines: Vec<String> = vec!["TYPE ZT".into(), "  ZA AS INTEGER".into(), "  ZS AS STRING * 4".into(), "END TYPE".into()];
+            lines.extend(f.pre.iter().map(|p| p.to_string()));
+            lines.push(f.text.to_string());
+            for l in ["SUB ZSb (ZPA%, ZPB%)", "  PRINT ZPA%; ZPB%", "END SUB", "FUNCTION ZFn% (ZPA%, ZPB%)", "  ZFn% = ZPA% + ZPB%", "END FUNCTION"] {
+                lines.push(l.to_string());
+            }
+            sh.class("catalogue-statement");
+            let r = check_text(sh, "catalogue", &(lines.join("\n") + "\n"));
+            if !sh.report(r) {
+                return;
+            }
+        }
+
         // (d) deep nesting — enumerated, few
         let depths: &[usize] = match tier {
             Tier::Quick => &[10, 100, 300],
